@@ -391,6 +391,32 @@ def _cli_entry(argv: Sequence[str]) -> int:
     return main(list(argv))
 
 
+# How the notes directory is spelled on the command line: its canonical absolute path (default),
+# through a symlink, or with a '..' in it -- the same directory every time, so nothing a command
+# does may depend on the spelling.  A check sets it around a case (set_dir_spelling).
+_DIR_SPELLING: list[str] = ["canonical"]
+DIR_SPELLINGS = ("canonical", "symlink", "dotdot")
+
+
+def set_dir_spelling(name: str = "canonical") -> None:
+    if name not in DIR_SPELLINGS:
+        raise HarnessError(name)
+    _DIR_SPELLING[0] = name
+
+
+def spelled(zdir: Path) -> str:
+    how = _DIR_SPELLING[0]
+    if how == "symlink":
+        link = zdir.parent / (zdir.name + "-lnk")
+        if not link.is_symlink():
+            link.symlink_to(zdir)
+        return str(link)
+    if how == "dotdot":
+        (zdir.parent / "x").mkdir(exist_ok=True)
+        return f"{zdir.parent}/x/../{zdir.name}"
+    return str(zdir)
+
+
 def run_cli(
     zdir: Path,
     *args: str,
@@ -403,7 +429,7 @@ def run_cli(
         cfg = zdir.parent / f"{zdir.name}.cfg.yml"
         if not cfg.exists():
             write_config(cfg)
-    argv = ["zorg", "-c", str(cfg), "--dir", str(zdir), *args]
+    argv = ["zorg", "-c", str(cfg), "--dir", spelled(zdir), *args]
     return run_child(_cli_entry, argv, day=day, timeout=timeout)
 
 
